@@ -161,4 +161,36 @@ theorem choi_partial_trace' (dimIn dimOut choiRank : Nat) (X : NMat ℂ) (i i' :
   refine Finset.sum_congr rfl (fun s _ => Finset.sum_congr rfl (fun o _ => ?_))
   rw [Complex.star_def, mul_comm]
 
+/-- dividing by a real number is a real scalar multiple -/
+theorem toM_divReal (m n : Nat) (A : NMat ℂ) (x : ℝ) : toM m n (divReal m n A x) = ((x⁻¹ : ℝ) : ℂ) • toM m n A := by
+  ext i j
+  simp only [toM, divReal, Matrix.of_apply, NMat.get_ofFn_fin, Matrix.smul_apply, smul_eq_mul, CxOps.ofReal, CxOps.I, CxOps.re, CxOps.im]
+  apply Complex.ext <;> simp [div_eq_inv_mul]
+
+/-- `to_symmetric_matrix` stays Hermitian (and traceless) after the `is_norm1` normalisation -/
+theorem symmetricMatrix_hermitian' (S : Scalars ℂ) (hS : S.Valid dim) (hd : 1 ≤ dim) (isReal isTrace0 isNorm1 : Bool) (θ : Nat → ℝ) :
+    (toM dim dim (symmetricMatrix S dim isReal isTrace0 isNorm1 θ))ᴴ = toM dim dim (symmetricMatrix S dim isReal isTrace0 isNorm1 θ) := by
+  unfold symmetricMatrix
+  simp only []
+  split_ifs
+  · rw [toM_divReal, conjTranspose_smul, symmetricRaw_hermitian' S hS hd]; simp
+  · exact symmetricRaw_hermitian' S hS hd isReal isTrace0 θ
+
+theorem symmetricMatrix_trace' (S : Scalars ℂ) (hd : 1 ≤ dim) (isReal isNorm1 : Bool) (θ : Nat → ℝ) :
+    trace (toM dim dim (symmetricMatrix S dim isReal true isNorm1 θ)) = 0 := by
+  unfold symmetricMatrix
+  simp only []
+  split_ifs
+  · rw [toM_divReal, trace_smul, symmetricRaw_trace' S hd, smul_zero]
+  · exact symmetricRaw_trace' S hd isReal θ
+
+/-- the first `rank` columns of a unitary matrix are orthonormal (`Stiefel(method='so-exp'/'so-cayley')`) -/
+theorem soColumns_orthonormal (rank : Nat) (h : rank ≤ dim) (U : NMat ℂ) (hU : (toM dim dim U)ᴴ * toM dim dim U = 1) :
+    (toM dim rank (soColumns dim rank U))ᴴ * toM dim rank (soColumns dim rank U) = 1 := by
+  ext c1 c2
+  have := congrFun (congrFun hU ⟨c1.val, lt_of_lt_of_le c1.isLt h⟩) ⟨c2.val, lt_of_lt_of_le c2.isLt h⟩
+  simp only [Matrix.mul_apply, conjTranspose_apply, toM, Matrix.of_apply, Matrix.one_apply, Fin.mk.injEq] at this ⊢
+  simp only [soColumns, NMat.get_ofFn_fin, Fin.ext_iff]
+  exact this
+
 end Numqi.Manifold
